@@ -2,18 +2,18 @@
 # usage: seed_confirm.sh <worktree> <crate> <demo path relative to worktree>
 # Confirms a seeded change in its scratch worktree: (a) crate tests pass with the change, (b) demo fails with it,
 # (c) demo passes without it.
-set -u
+set -u; CARGO_EXTRA=${CARGO_EXTRA:-}
 wt=$1; crate=$2; demo=$3
 cd "$wt" || exit 2
 export CARGO_NET_OFFLINE=true
 echo "== (b) demo with change"
-cargo test -p $crate --offline --test seed_demo 2>&1 | grep -E "^test result|^test .*(FAILED|ok)$" | head -20
+cargo test -p $crate --offline $CARGO_EXTRA --test seed_demo 2>&1 | grep -E "^test result|^test .*(FAILED|ok)$" | head -20
 echo "== (a) suite with change, demo aside"
 mv $demo /tmp/$(basename $wt).demo.hold
-cargo test -p $crate --offline 2>&1 | grep -E "^test result" | awk '{p+=$4; f+=$6} END {print "passed",p,"failed",f}'
+cargo test -p $crate --offline $CARGO_EXTRA 2>&1 | grep -E "^test result" | awk '{p+=$4; f+=$6} END {print "passed",p,"failed",f}'
 mv /tmp/$(basename $wt).demo.hold $demo
 echo "== (c) demo without change"
 git stash push -q -- $(git diff --name-only | grep -v seed_demo)
-cargo test -p $crate --offline --test seed_demo 2>&1 | grep -E "^test result"
+cargo test -p $crate --offline $CARGO_EXTRA --test seed_demo 2>&1 | grep -E "^test result"
 git stash pop -q
 git status --short | head -5
